@@ -298,7 +298,15 @@ where
     }
 
     pub fn entry(&'_ mut self, key: Handle) -> Entry<'_, T> {
-        let ind = self.find_ind(key);
+        let mut ind = self.find_ind(key);
+        // a vacant entry is about to be filled: keep the load below the maximum, like insert does,
+        // otherwise the table fills up completely and probing never finds an empty slot again
+        if unsafe { *self.handles.as_ptr().add(ind) != key }
+            && (self.count + 1) as f32 > self.capacity as f32 * MAX_LOAD
+        {
+            self.grow().expect("HandleTable::entry: failed to grow");
+            ind = self.find_ind(key);
+        }
 
         let pl = unsafe {
             if *self.handles.as_ptr().add(ind) != key {
